@@ -96,6 +96,8 @@ for d in sorted(glob.glob("/verif/seeded/C*")):
     det = m.get("detected", {})
     how = []
     for chk, v in det.items():
+        if v.get("exit") is None and v.get("note"):
+            how.append(chk + " (impl-vs-spec; run stopped by hand while shrinking, see meta.json)")
         if v.get("exit") == 1:
             kinds = sorted({(r.get("kind") or "") for r in v.get("replays", [])})
             how.append(chk + " (" + ",".join(k for k in kinds if k) + ")")
